@@ -225,6 +225,18 @@ theorem parseViewRef_spelled (sc : Scope) (D : Data) (vsp did lid : Str) (li di 
   simp only [parseViewRef, List.tail_cons, identOfS_atom vsp hvv, push_mk, List.cons_append, List.nil_append,
     parseCellRef_ok sc D did lid li di hvd hvl hres hf, hd, hview, hl, if_true, bind, Except.bind, pure, Except.pure]
 
+/-- … with the `(libraryRef …)` left out: the library being read -/
+theorem parseViewRef_spelled_omit (sc : Scope) (D : Data) (vsp did : Str) (di : Nat) (d' : CDef) (dv : Str)
+    (hvv : validIdentTok vsp = true) (hvd : validIdentTok did = true)
+    (hf : findIdent ((defsOfLib sc sc.libs.length).map (·.data)) did = some di)
+    (hd : (defsOfLib sc sc.libs.length)[di]? = some d') (hview : viewIdentOf d'.data = some dv) (hdv : lower dv = lower vsp) :
+    parseViewRef sc { data := D, pfx := [S "EDIF"] }
+      [A "viewref", .atom vsp, .list [A "cellref", .atom did]] = .ok (sc.libs.length, di) := by
+  have hl : (lower dv == lower vsp) = true := by rw [hdv]; simp
+  have h1 : headIs [A "cellref", SExp.atom did] "cellref" = true := by rw [headIs_cons]; decide
+  simp only [parseViewRef, parseCellRef, h1, Bool.not_true, Bool.false_eq_true, if_false, List.tail_cons, identOfS_atom vsp hvv,
+    identOfS_atom did hvd, hf, hd, hview, hl, if_true, bind, Except.bind, pure, Except.pure]
+
 /-- one `(instance …)` of an abstract design, read in a scope where its reference resolves -/
 theorem parseInstance_AInst (sc : Scope) (i : AInst) (hn : i.name.okB = true) (hps : ∀ p ∈ i.props, p.okB = true)
     (d' : CDef) (dv : Str)
@@ -232,12 +244,23 @@ theorem parseInstance_AInst (sc : Scope) (i : AInst) (hn : i.name.okB = true) (h
     (hres : LibResolves sc i.libSp i.li)
     (hf : findIdent ((defsOfLib sc i.li).map (·.data)) i.cellSp = some i.di)
     (hd : (defsOfLib sc i.li)[i.di]? = some d') (hview : viewIdentOf d'.data = some dv)
-    (hdv : lower dv = lower i.viewSp) :
+    (hdv : lower dv = lower i.viewSp) (homit : i.libOmit = true → i.li = sc.libs.length) :
     ∃ r, i.sexp = .list (A "instance" :: r) ∧ parseInstance sc (A "instance" :: r) = .ok i.elab := by
   refine ⟨_, rfl, ?_⟩
-  have hvr : headIs [A "viewref", SExp.atom i.viewSp,
-      SExp.list [A "cellref", SExp.atom i.cellSp, SExp.list [A "libraryref", SExp.atom i.libSp]]] "viewref" = true := by
+  have hvr : headIs [A "viewref", SExp.atom i.viewSp, i.cellRefSexp] "viewref" = true := by
     rw [headIs_cons]; decide
+  have hpv : parseViewRef sc { data := withName [] i.name.ident i.name.name, pfx := [S "EDIF"] }
+      [A "viewref", SExp.atom i.viewSp, i.cellRefSexp] = .ok (i.li, i.di) := by
+    unfold AInst.cellRefSexp
+    cases ho : i.libOmit with
+    | false =>
+      simp only [Bool.false_eq_true, if_false]
+      exact parseViewRef_spelled sc _ i.viewSp i.cellSp i.libSp i.li i.di d' dv hvv hvd hvl hres hf hd hview hdv
+    | true =>
+      have hli := homit ho
+      simp only [if_true]
+      rw [hli] at hf hd ⊢
+      exact parseViewRef_spelled_omit sc _ i.viewSp i.cellSp i.di d' dv hvv hvd hf hd hview hdv
   have hk1 : (withName [] i.name.ident i.name.name).has kPID = false := withName_nil_has _ _ _ (by decide) (by decide)
   have hk2 : (withName [] i.name.ident i.name.name).has kPORIG = false := withName_nil_has _ _ _ (by decide) (by decide)
   have hk3 : (withName [] i.name.ident i.name.name).get? kPROPS = none := by
@@ -246,8 +269,7 @@ theorem parseInstance_AInst (sc : Scope) (i : AInst) (hn : i.name.okB = true) (h
   rw [show withProps (withName [] i.name.ident i.name.name) [] = withName [] i.name.ident i.name.name from rfl,
     List.nil_append] at hlp
   simp only [parseInstance, List.tail_cons, nameDef_AName_new i.name hn, hvr, if_true,
-    parseViewRef_spelled sc _ i.viewSp i.cellSp i.libSp i.li i.di d' dv hvv hvd hvl hres hf hd hview hdv, hlp, endC,
-    AInst.elab, readInst, bind, Except.bind, pure, Except.pure]
+    hpv, hlp, endC, AInst.elab, readInst, bind, Except.bind, pure, Except.pure]
 
 theorem identOf_AInst_elab (i : AInst) : identOf i.elab.data = some i.name.ident := by
   simp [AInst.elab, readInst, identOf_withProps, identOf_withName]
